@@ -69,7 +69,7 @@ Fixpoint omap {A B} (f : A -> option B) (l : list A) : option (list B) :=
 Record lset := mkL { l_feat : Z; l_lam : list num; l_pen : list ostr; l_verbose : bool;
                      l_dtype : string; l_con : list ostr (* hidden by _exclude *) }.
 Record sset := mkS { s_feat : Z; s_n : Z; s_order : Z; s_lam : list num; s_pen : list ostr; s_con : list ostr;
-                     s_basis : string; s_dtype : string; s_by : option Z; s_knots : option (list num);
+                     s_basis : string; s_dtype : string; s_by : option Z; s_knots : option (bool * list num);  (* edge_knots_ and _edge_knots_given *)
                      s_verbose : bool }.
 (* a FactorTerm IS a SplineTerm (same attributes) plus `coding`; its _exclude hides dtype, spline_order, by, n_splines,
    basis, constraints from get_params / info *)
@@ -198,37 +198,44 @@ Definition compile_simple (dk : Z -> list num) (ncat : Z -> Z) (x : simple) : si
   match x with
   | SL l => SL l                               (* edge_knots_ of a linear term does not enter columns/penalties/constraints *)
   | SS s => SS (mkS (s_feat s) (s_n s) (s_order s) (s_lam s) (s_pen s) (s_con s) (s_basis s) (s_dtype s) (s_by s)
-                    (match s_knots s with Some k => Some k | None => Some (dk (s_feat s)) end)   (* kept once set *)
+                    (match s_knots s with Some (true, k) => Some (true, k) | _ => Some (false, dk (s_feat s)) end)
+                    (* regenerated on every compile unless given by the user ("fix: a spline term kept the knots ...") *)
                     (s_verbose s))
   | SF s c => SF (mkS (s_feat s) (ncat (s_feat s)) (s_order s) (s_lam s) (s_pen s) (s_con s) (s_basis s) (s_dtype s) (s_by s)
-                      (Some (dk (s_feat s))) (s_verbose s)) c                                   (* always overwritten *)
+                      (Some (false, dk (s_feat s))) (s_verbose s)) c                            (* always overwritten *)
   end.
 Definition compile (dk : Z -> list num) (ncat : Z -> Z) (t : term) : term :=
   match t with TI v => TI v | TS x => TS (compile_simple dk ncat x) | TTe ms b v => TTe (map (compile_simple dk ncat) ms) b v end.
 
-(* behav: the settings that determine model-matrix columns, penalties and constraints (everything except `verbose`;
-   for a linear term also except dtype / constraints: with one coefficient every constraint matrix is zero and the
-   'auto' penalty is l2 for both dtypes -- checked against the implementation by the harness) *)
+(* behav: the settings that determine model-matrix columns, penalties and constraints of the term once it is compiled on
+   data: everything except `verbose`, except edge knots that were NOT given by the user and a factor term's n_splines (both
+   are regenerated from the data by every compile), and for a linear term also except dtype / constraints: with one
+   coefficient every constraint matrix is zero and the 'auto' penalty is l2 for both dtypes -- checked by the harness *)
+Definition keep_given (k : option (bool * list num)) : option (bool * list num) :=
+  match k with Some (true, x) => Some (true, x) | _ => None end.
 Definition behav_simple (x : simple) : simple :=
   match x with
   | SL l => SL (mkL (l_feat l) (l_lam l) (l_pen l) false "numerical" [None])
-  | SS s => SS (mkS (s_feat s) (s_n s) (s_order s) (s_lam s) (s_pen s) (s_con s) (s_basis s) (s_dtype s) (s_by s) (s_knots s) false)
-  | SF s c => SF (mkS (s_feat s) (s_n s) (s_order s) (s_lam s) (s_pen s) (s_con s) (s_basis s) (s_dtype s) (s_by s) (s_knots s) false) c
+  | SS s => SS (mkS (s_feat s) (s_n s) (s_order s) (s_lam s) (s_pen s) (s_con s) (s_basis s) (s_dtype s) (s_by s)
+                    (keep_given (s_knots s)) false)
+  | SF s c => SF (mkS (s_feat s) 20 (s_order s) (s_lam s) (s_pen s) (s_con s) (s_basis s) (s_dtype s) (s_by s)
+                      (keep_given (s_knots s)) false) c
   end.
 Definition behav (t : term) : term :=
   match t with TI _ => TI false | TS x => TS (behav_simple x) | TTe ms b _ => TTe (map behav_simple ms) b false end.
 
 (* guards of the info round trip *)
+Definition given_knots (k : option (bool * list num)) : bool := match k with Some (true, _) => true | _ => false end.
+(* no edge knots given by the user (knots from an earlier fit are fine: they are regenerated) *)
 Definition no_knots_simple (x : simple) : bool :=
-  match x with SL _ => true | SS s => match s_knots s with None => true | _ => false end
-             | SF s _ => match s_knots s with None => true | _ => false end end.
+  match x with SL _ => true | SS s => negb (given_knots (s_knots s)) | SF s _ => negb (given_knots (s_knots s)) end.
 (* hidden attributes of a factor term at the values its constructor gives them (n_splines is overwritten by compile) *)
 Definition hidden_default_simple (x : simple) : bool :=
   match x with
   | SL _ => true | SS _ => true
   | SF s _ => Z.eqb (s_order s) 0 && String.eqb (s_basis s) "ps" && String.eqb (s_dtype s) "categorical" &&
               match s_by s with None => true | _ => false end &&
-              match s_con s with [None] => true | _ => false end && Z.eqb (s_n s) 20
+              match s_con s with [None] => true | _ => false end
   end.
 Definition roundtrip_guard (t : term) : bool :=
   match t with
